@@ -176,11 +176,11 @@ Section Model.
     let th := getT s tid in
     match rz s, e with
     | RIdle, EResizeBegin n =>
-        guard ((0 <=? n) && negb (n =? numThreads s) && pc_free (tpc th)) (Some (set_rz s (RActive tid false n PhBegin)))
+        guard ((0 <=? n) && negb (n =? numThreads s) && pc_free (tpc th) && nilb (pend th)) (Some (set_rz s (RActive tid false n PhBegin)))
     | RIdle, EDtorBegin =>
-        guard (pc_free (tpc th)) (Some (set_rz s (RActive tid true 0 PhBegin)))
+        guard (pc_free (tpc th) && nilb (pend th)) (Some (set_rz s (RActive tid true 0 PhBegin)))
     | RActive who dt n ph, _ =>
-        guard (Nat.eqb who tid)
+        guard (Nat.eqb who tid && nilb (pend th))    (* resizeLocked / ~ThreadPool never run in the middle of a submission of the same thread *)
         match ph, e with
         | PhBegin, EStopAll => Some (set_rz s (RActive who dt n PhStopped))
         | PhStopped, EWakeAll => Some (set_rz s (RActive who dt n PhWoken))
@@ -487,6 +487,17 @@ Section Model.
     | O, _ => Some s
     | S k', (t, e) :: r => match accept s t e with Some s' => state_at s' r k' | None => None end
     | S _, [] => None
+    end.
+
+  (* domain of the C01 finding "dtor-drain-task-reschedules": a task is generated (by a body that the destructor's own ring / steal-ring
+     drain runs) after the destructor's last central-queue drain has finished *)
+  Definition late (ph : phase) : bool := match ph with PhRings _ | PhSteals _ | PhDrained => true | _ => false end.
+  Definition late_state (s : state) : bool := match rz s with RActive _ true _ ph => late ph | _ => false end.
+  Definition is_gen (e : event) : bool := match e with EGen _ => true | _ => false end.
+  Fixpoint late_gen (s : state) (tr : list (nat * event)) : bool :=
+    match tr with
+    | [] => false
+    | (t, e) :: r => (is_gen e && late_state s) || match accept s t e with Some s' => late_gen s' r | None => false end
     end.
 
   Definition quiescent (s : state) : bool :=
